@@ -74,6 +74,12 @@ pub struct RefTable {
 }
 
 impl RefTable {
+    /// verification hook: number of dirty blocks of this table
+    #[cfg(qcow2_rs_verif)]
+    pub fn verif_dirty_blocks(&self) -> usize {
+        self.dirty_blocks.borrow().len()
+    }
+
     pub fn new(offset: Option<u64>, size: usize, bs_bits: u8) -> Self {
         let mut rt = RefTable::new_empty(offset, size);
 
